@@ -36,4 +36,10 @@ let attrs_cmd cmd tk = match cmd with
       Some (match connect_randomly_uneven ch src dest maxc with
         | ROk r -> "ok " ^ String.concat " " (List.map (fun (a, b) -> Printf.sprintf "%d:%d" (int_of_nat a) (int_of_nat b)) r)
         | RPrecondition -> "precondition" | RAssert -> "assert" | ROracle -> "oracle")
+  | "R_BEGIN" -> let t = next_z tk in let p = next_z tk in let r = next_z tk in Some (str_bool (may_begin t p r))
+  | "R_PROG" -> let p = next_z tk in let r = next_z tk in Some (string_of_int (int_of_z (rt_progress p r)))
+  | "R_CHECK" -> let rt = next_opt next_z tk in let st = next_bool tk in let p = next_z tk in let l = next_z tk in
+      Some (match rt_check rt st p l with InTime -> "intime" | TooSlowWarning -> "warning" | TooSlowError -> "error")
+  | "R_EVENT" -> let rt = next_opt next_z tk in let t = next_z tk in let u = next_z tk in
+      Some (match set_event rt t u with EventRefused -> "refused" | EventScheduled -> "scheduled" | EventIgnoredWithWarning -> "ignored")
   | _ -> None
